@@ -758,6 +758,41 @@ func (e *OwnEngine) model(fn *ssa.Function, call *ssa.Call, callee *ssa.Function
 	case "sort.Stable", "sort.Sort":
 		e.modelSort(fn, call, args[0])
 		return
+	case "sort.Slice", "sort.SliceStable":
+		// reorders the elements of its first argument and calls the less function
+		for l := range elemLocs(e.valSet(args[0])) {
+			e.recordWrite(call, l, name+" sorts its argument in place")
+		}
+		var targets []*ssa.Function
+		switch lv := args[1].(type) {
+		case *ssa.MakeClosure:
+			if cf, ok := lv.Fn.(*ssa.Function); ok {
+				targets = append(targets, cf)
+			}
+		case *ssa.Function:
+			targets = append(targets, lv)
+		default:
+			if sig, ok := args[1].Type().Underlying().(*types.Signature); ok {
+				for _, cand := range e.funcs {
+					if cand.Signature.Recv() != nil || cand.Blocks == nil || !types.Identical(cand.Signature, sig) {
+						continue
+					}
+					if cand.Pkg != c.SLib && cand.Pkg != c.SCLI && !(cand.Parent() != nil) {
+						continue
+					}
+					targets = append(targets, cand)
+				}
+			}
+		}
+		if len(targets) == 0 {
+			e.unknown["less function of "+name+" in "+fname(fn)] = call.Pos()
+		}
+		for _, t := range targets {
+			if t.Blocks != nil {
+				e.addCall(fn, t)
+			}
+		}
+		return
 	case "sort.Float64s", "sort.Strings", "sort.Ints":
 		for l := range elemLocs(e.valSet(args[0])) {
 			e.recordWrite(call, l, name+" sorts its argument in place")
